@@ -1155,7 +1155,6 @@ func (fr *Frame) expandFormat(format string, elems []Val) (string, bool) {
 	return "(str.++ " + strings.Join(parts, " ") + ")", true
 }
 
-
 // execIterate models maps.Iterate(m, f) at its call sites as a loop that visits the
 // keys of m in strictly increasing order, running f's body inline each time
 // (higher-order contract of maps.Iterate, see DESIGN.md 2.3): at the iteration
@@ -1248,7 +1247,6 @@ func sortCells(cl []*Cell) {
 		}
 	}
 }
-
 
 // modelSort models sort.Strings / sort.Slice / sort.SliceStable (A6): afterwards the slice is a
 // permutation of what it was (witnessed by an injective index map and its inverse) and is ordered:
@@ -1343,7 +1341,6 @@ func (fr *Frame) modelSort(q string, c *ssa.CallCommon, args []Val, resT types.T
 	}
 	return Val{T: resT}
 }
-
 
 // dynName is the uninterpreted "apply" symbol for function values of one signature.
 func (vc *VC) dynName(sig *types.Signature) (string, []string, []string) {
@@ -1462,7 +1459,6 @@ func (fr *Frame) linkFuncValue(f *ssa.Function) {
 	}
 	vc.fact(fmt.Sprintf("(forall (%s) (! (and %s) :pattern (%s) :pattern (%s)))", strings.Join(decls, " "), strings.Join(body, " "), dyn, app))
 }
-
 
 // modelRegexMatch gives regex.Match(r, s) for a constant pattern its meaning: ok is membership;
 // when ok, the map holds one entry per named group, bound by a decomposition of s along the
